@@ -184,6 +184,19 @@ Proof.
   - intros i _. rewrite nth_a1_S. reflexivity.
 Qed.
 
+Lemma conv_split a ys n : 0 < length a ->
+  conv_at a ys n = nth 0%nat a 0 * nth n ys 0 + feedback_at a ys n.
+Proof.
+  intros Ha. unfold SpecDSP.conv_at, SpecDSP.feedback_at.
+  replace (length a) with (S (length a - 1)) by lia.
+  rewrite !rsum_shift. change (0 <=? n) with true. change (1 <=? 0) with false. cbn [andb].
+  rewrite Nat.sub_0_r.
+  rewrite (rsum_ext (fun i => if S i <=? n then nth (S i) a 0 * nth (n - S i)%nat ys 0 else 0)
+                    (fun i => if (1 <=? S i) && (S i <=? n) then nth (S i) a 0 * nth (n - S i)%nat ys 0 else 0)).
+  - ring.
+  - intros i _. reflexivity.
+Qed.
+
 (** the difference equation, for every input sequence and every n *)
 Lemma iir_is_difference_equation_lemma b a xs n : 0 < length b -> length a = length b -> n < length xs ->
   nth n (run_iir b a xs) 0 = conv_at b xs n - feedback_at a (run_iir b a xs) n.
@@ -201,6 +214,15 @@ Proof.
     - intros m Hm. apply S. lia.
     - intros m Hm. apply S. lia. }
   rewrite conv_a1_split in E by lia. rewrite <- E. ring.
+Qed.
+
+(** standard form  Σ_i a_i y_{n-i} = Σ_i b_i x_{n-i}  when a_0 = 1 *)
+Lemma iir_standard_form_lemma b a xs n : 0 < length b -> length a = length b -> n < length xs ->
+  nth 0%nat a 0 = 1 ->
+  conv_at a (run_iir b a xs) n = conv_at b xs n.
+Proof.
+  intros HN La Hn A0. rewrite conv_split, A0 by lia.
+  rewrite (iir_is_difference_equation_lemma b a xs n HN La Hn) at 1. ring.
 Qed.
 
 Lemma run_iir_length b a xs : length (run_iir b a xs) = length xs.
